@@ -135,7 +135,8 @@ class DefaultDictNode(Node):
         }
 
     def _construct(self):
-        instance = defaultdict(None, self.children["main"].construct())
+        cls = gettype(self.module_name, self.class_name)
+        instance = cls(None, self.children["main"].construct())
         instance.default_factory = self.children["default_factory"].construct()
         return instance
 
